@@ -108,3 +108,15 @@ package cmd
 //@   at return 2 before-defers assert calls("time.NewTimer") == 1
 //@   at return 3 before-defers assert calls("time.NewTimer") == 1
 //@   at return 4 before-defers assert calls("time.NewTimer") == 1
+
+// C20 (every outcome is answered to the requester): the progress poll ends as soon as the file carries a
+// terminal code - done, error or busy - and keeps polling only for a code that is none of the three.
+//@ func waitReloadCompletion
+//@   anchorsonly
+//@   nonilcheck
+//@   dyncalls noeffect
+//@   modifies *
+//@   at call readSignalProgressFile#1 assert a0 == path
+//@   at return 2 assert (code == consts.ReloadDone || code == consts.ReloadError || code == consts.ReloadBusy) && result0 == code && result2 == nil
+//@   loop 1
+//@     back code != consts.ReloadDone && code != consts.ReloadError && code != consts.ReloadBusy
